@@ -532,7 +532,7 @@ class UnionMetaType(StructureMetaType):
                 start = field.offset
 
             buf.seek(offset + start)
-            value = field_type._read(buf, result)
+            value = _read_member(field, field_type, buf, result)
 
             sizes[field._name] = buf.tell() - offset - start
             result[field._name] = value
@@ -599,7 +599,7 @@ class UnionMetaType(StructureMetaType):
             # Write the value, at the offset the member has in the union
             if field.offset:
                 stream.write(b"\x00" * field.offset)
-            field.type._write(stream, getattr(data, field._name))
+            _write_member(field, field.type, stream, getattr(data, field._name))
             break
 
         # If we haven't written anything yet and we initially skipped an anonymous struct, write it now
@@ -612,6 +612,31 @@ class UnionMetaType(StructureMetaType):
             stream.write(b"\x00" * remaining)
 
         return stream.tell() - offset
+
+
+def _read_member(field: Field, field_type: type[BaseType], stream: BinaryIO, context: dict[str, Any] | None) -> Any:
+    """Read a member of a union: a bit field is the first bits of a storage unit of its own."""
+    if not field.bits:
+        return field_type._read(stream, context)
+
+    bit_buffer = BitBuffer(stream, field_type.cs.endian)
+    if isinstance(field_type, EnumMetaType):
+        return field_type(bit_buffer.read(field_type.type, field.bits))
+    return bit_buffer.read(field_type, field.bits)
+
+
+def _write_member(field: Field, field_type: type[BaseType], stream: BinaryIO, value: Any) -> None:
+    """Write a member of a union, the counterpart of :func:`_read_member`."""
+    if not field.bits:
+        field_type._write(stream, value)
+        return
+
+    bit_buffer = BitBuffer(stream, field_type.cs.endian)
+    if isinstance(field_type, EnumMetaType):
+        bit_buffer.write(field_type.type, getattr(value, "value", value), field.bits)
+    else:
+        bit_buffer.write(field_type, value, field.bits)
+    bit_buffer.flush()
 
 
 class Union(Structure, metaclass=UnionMetaType):
@@ -650,7 +675,7 @@ class Union(Structure, metaclass=UnionMetaType):
         if (value := getattr(self, attr)) is None:
             value = field.type.__default__()
 
-        field.type._write(buf, value)
+        _write_member(field, field.type, buf, value)
 
         object.__setattr__(self, "_buf", buf.getvalue())
         self._update()
